@@ -31,7 +31,7 @@ PID = 'C03'
 def designs_for(ctx):
   quick = ctx.tier == 'quick'
   return (eng.directed_designs(ctx) + sv.stdlib_designs(ctx.tier) + sv.testcase_designs() +
-          eng.gen_designs(ctx, 78 if quick else 800))
+          eng.gen_designs(ctx, 56 if quick else 800))
 
 def summarize(ctx, results):
   feats = collections.Counter()
@@ -66,7 +66,7 @@ def static_acceptors(ctx, results):
 
 def run(ctx):
   setup_impl_path()
-  ncyc = 16 if ctx.tier == "quick" else 30
+  ncyc = 14 if ctx.tier == "quick" else 30
   results = eng.run_backend(ctx, PID, BACKEND, designs_for(ctx), ncyc, {})
   summarize(ctx, results)
   static_acceptors(ctx, results)
